@@ -242,3 +242,87 @@ func runNativeRecvCast(c *Ctx) {
 	}
 	c.Stats["receiver_conversions_checked"] = nCasts
 }
+
+// ast/class-unique (C28): every syntax-tree node type of package parser/ast is
+// its own Elk class. Two node types whose Class() methods return the same
+// class object means one of them was copied and not adjusted: the node
+// reports, and is dispatched as, the other type.
+func init() {
+	register(&Rule{
+		ID:    "ast/class-unique",
+		Text:  "no two types of package parser/ast return the same class object from their Class() method, and Class() and DirectClass() of one type return the same object",
+		Floor: 200,
+		Run:   runASTClassUnique,
+	})
+}
+
+func runASTClassUnique(c *Ctx) {
+	p := c.Pkg("parser/ast")
+	info := p.TypesInfo
+	type entry struct {
+		typ string
+		pos ast.Node
+	}
+	byClass := map[types.Object][]entry{}
+	direct := map[string]types.Object{}
+	class := map[string]types.Object{}
+	var order []string
+	c.Funcs("parser/ast", func(fr *FuncRef) {
+		if fr.Decl.Recv == nil || fr.Decl.Type.Params.NumFields() != 0 {
+			return
+		}
+		name := fr.Decl.Name.Name
+		if name != "Class" && name != "DirectClass" {
+			return
+		}
+		var ret types.Object
+		n := 0
+		ast.Inspect(fr.Decl.Body, func(x ast.Node) bool {
+			if r, ok := x.(*ast.ReturnStmt); ok && len(r.Results) == 1 {
+				n++
+				ret = exprObj(info, r.Results[0])
+			}
+			return true
+		})
+		if n != 1 || ret == nil {
+			return
+		}
+		if _, isNil := ret.(*types.Nil); isNil {
+			return // embedded bases without a class of their own
+		}
+		t := recvTypeName(fr.Decl)
+		if name == "Class" {
+			class[t] = ret
+			byClass[ret] = append(byClass[ret], entry{t, fr.Decl})
+			order = append(order, t)
+		} else {
+			direct[t] = ret
+		}
+	})
+	sort.Strings(order)
+	for _, t := range order {
+		cl := class[t]
+		shared := ""
+		for _, e := range byClass[cl] {
+			if e.typ != t {
+				shared = e.typ
+			}
+		}
+		ok := shared == ""
+		why := ""
+		if !ok {
+			why = "the same class object as " + shared
+		}
+		if d, has := direct[t]; has && d != cl {
+			ok = false
+			why = "a different object than its DirectClass()"
+		}
+		var pos ast.Node
+		for _, e := range byClass[cl] {
+			if e.typ == t {
+				pos = e.pos
+			}
+		}
+		c.Check(ok, t, pos.Pos(), "%s.Class() returns %s (%s): the node reports another node type's class and is dispatched to that type's native methods, which panic converting the receiver", t, cl.Name(), why)
+	}
+}
